@@ -331,6 +331,22 @@ class Interp:
                     pass
             if isinstance(a, I) and isinstance(b, int):
                 return self._cmp_int(a, op, b, env)
+            if isinstance(a, S) and isinstance(op, (ast.In, ast.NotIn)) and isinstance(b, T) and b.items and \
+                    all(isinstance(x, S) and x.lo == x.hi for x in b.items):
+                # x in ('\\x00', '\\x01'): impossible when no constant has a length and character classes x can have
+                name = test.left.id if isinstance(test.left, ast.Name) else None
+                possible = [x for x in b.items if a.lo <= x.lo <= a.hi and x.chars <= a.chars]
+                res = []
+                if possible:
+                    e1 = dict(env)
+                    if name:
+                        j = None
+                        for x in possible:
+                            j = S(x.lo, x.hi, x.chars, None) if j is None else join(j, x)
+                        e1[name] = S(j.lo, j.hi, j.chars, None)
+                    res.append((isinstance(op, ast.In), e1))
+                res.append((not isinstance(op, ast.In), env))
+                return res
             if isinstance(a, S) and isinstance(b, str) and isinstance(op, (ast.Eq, ast.NotEq)):
                 if b == '' :
                     # x == '' : refine length
@@ -639,6 +655,18 @@ class Interp:
                         return L(S(0, rs.hi, rs.chars - {sc}), 1, nhi, (nm, sc) if nm else None)
                 if m == 'decode' or m == 'encode':
                     return S(rs.lo, rs.hi, rs.chars, rs.same)
+                if m == 'replace' and len(n.args) == 2:
+                    a, b = self._eval(n.args[0], env), self._eval(n.args[1], env)
+                    if isinstance(a, str) and isinstance(b, str) and len(a) == 1 and len(b) == 1:
+                        ca = classify(a)
+                        if ca not in rs.chars:
+                            return S(rs.lo, rs.hi, rs.chars, rs.same)
+                        # the class disappears only if `a` is its sole member ('.', ';', '_')
+                        chars = set(rs.chars) | {classify(b)}
+                        if ca in ('.', ';', '_') and classify(b) != ca:
+                            chars.discard(ca)
+                        return S(rs.lo, rs.hi, chars, None)
+                    return S(0, INF, ALL, None)
                 return TOP
             if isinstance(recv, str) and m == 'join' and len(n.args) == 1:
                 lst = self._eval(n.args[0], env)
